@@ -233,6 +233,48 @@ def run(ctx):
                         "Python 3.4+ writes ',' + newline, so the output text differs between the declared interpreters" % n.func.attr,
                     )
     led.count("json_dump_sites", n_json)
+    # map()/filter()/zip() return lists on Python 2.7 and one-shot iterators on Python 3: the
+    # difference shows when the object is indexed, measured, kept (attribute, module level,
+    # container element, return value) or read more than once
+    n_lazy = 0
+    if py2:
+        for name, m in sorted(ctx.repo.modules.items()):
+            for node, kind, how in PC.stored_lazy(m, m.tree):
+                if kind not in ("map()", "filter()", "zip()"):
+                    continue
+                n_lazy += 1
+                why = None
+                if how in ("indexed", "len"):
+                    why = "is %s" % ("indexed" if how == "indexed" else "passed to len()")
+                else:
+                    p = m.parent(node)
+                    fn = m.enclosing_function(node)
+                    if isinstance(p, ast.Return):
+                        why = "is returned to the caller"
+                    elif isinstance(p, (ast.Assign, ast.AnnAssign)) and p.value is node:
+                        tg = p.targets[0] if isinstance(p, ast.Assign) else p.target
+                        if isinstance(tg, ast.Name) and fn is not None:
+                            loads = [x for x in ast.walk(fn) if isinstance(x, ast.Name) and x.id == tg.id and isinstance(x.ctx, ast.Load)]
+                            in_loop = any(isinstance(a, (ast.For, ast.While)) for x in loads for a in m.ancestors(x) if m.enclosing_function(a) is fn and not any(a2 is a for a2 in m.ancestors(p)))
+                            if len(loads) > 1 or in_loop:
+                                why = "is bound to %s, which is read more than once" % tg.id
+                        elif isinstance(tg, ast.Name):
+                            why = "is bound to the module-level name %s" % tg.id if fn is None and any(
+                                isinstance(x, ast.Name) and x.id == tg.id and isinstance(x.ctx, ast.Load) for f_ in m.all_functions() for x in ast.walk(f_.node)
+                            ) else None
+                        else:
+                            why = "is stored in %s" % norm_src(tg)
+                    else:
+                        why = "becomes part of a larger value (%s)" % type(p).__name__
+                if why:
+                    led.violation(
+                        "C20.lazy",
+                        "%s::%s" % (name, short(node)),
+                        m.where(node),
+                        "the result of %s %s: a list on Python 2.7, a one-shot iterator on Python 3 (empty on the second read, no "
+                        "len(), no indexing)" % (kind, why),
+                    )
+    led.count("lazy_iterator_sites", n_lazy)
     # regular expressions: Unicode-dependent matching differs between 2.7 and 3.x
     n_rx = 0
     for m, n, pat, flags in PC.regex_calls(ctx):
